@@ -162,7 +162,9 @@ def make (spec0):
         n  = int (ro.choice ([15, 23, 30, 46, 60, 61, int (ro.integers (3, 100))]))
         a1 = float (ro.choice ([30.0, 10.0, -170.0, 0.0, float (np.round (ro.uniform (-360, 360), 1))]))
         sw = float (ro.choice ([300.0, 340.0, 180.0, float (np.round (ro.uniform (20, 350), 1))])) * float (ro.choice ([1, 1, -1]))
-        arc = dict (k = 'a', n = n, radius = scale * 50.0, a1 = a1, a2 = a1 + sw, r = 1e-4 * seg_min, tag = None, open = True)
+        # (its chords stay longer than the shortest segment of the wires, which sets the matching tolerance)
+        rad_o = max (scale * 50.0, 1.5 * seg_min / (2 * np.sin (np.radians (abs (sw)) / 2 / n)))
+        arc = dict (k = 'a', n = n, radius = rad_o, a1 = a1, a2 = a1 + sw, r = 1e-4 * seg_min, tag = None, open = True)
         if ro.random () < 0.3 and not tapers:
             # a circle that closes on itself only within the matching tolerance (its ends 0.2 .. 0.8 tolerances of the
             # structure apart, or a full turn backwards): the two ends are joined like any two ends that close
